@@ -44,6 +44,14 @@ typedef struct {
 	uint8_t len;
 	uint8_t b[BLEN];
 } body_t;
+// deterministic mode: any length (a few bytes up to ~200 KB); the storage
+// belongs to the case (det_t.al)
+typedef struct {
+	uint32_t len;
+	uint8_t *b;
+} dbytes_t;
+typedef dbytes_t dtopic_t;
+typedef dbytes_t dbody_t;
 
 static uint8_t
 g_sym(vf_rng *r)
@@ -52,21 +60,10 @@ g_sym(vf_rng *r)
 	return x < 5 ? 'a' : x < 9 ? 'b' : x < 12 ? 'c' : x < 14 ? 0x00 : 0xff;
 }
 
-static void
-g_topic(vf_rng *r, topic_t *t)
-{
-	static const uint8_t lens[20] = { 0, 0, 1, 1, 1, 1, 1, 1, 2, 2, 2, 2, 2, 3,
-		3, 3, 4, 4, 5, 6 };
-	t->len = lens[vf_below(r, 20)];
-	for (int i = 0; i < t->len; i++) {
-		t->b[i] = g_sym(r);
-	}
-}
-
 static const char *
 hx(const void *p, size_t n)
 {
-	static _Thread_local char bufs[6][3 * 40 + 8];
+	static _Thread_local char bufs[6][3 * 40 + 24];
 	static _Thread_local int  k;
 	char                     *o = bufs[k = (k + 1) % 6];
 	const uint8_t            *b = p;
@@ -81,6 +78,9 @@ hx(const void *p, size_t n)
 	}
 	o[w++] = '>';
 	o[w]   = 0;
+	if (n > 36) {
+		snprintf(o + w, 16, "+%zu", n - 36);
+	}
 	return o;
 }
 
@@ -100,6 +100,16 @@ static bool
 t_prefix(const topic_t *t, const uint8_t *b, size_t len)
 {
 	return t->len <= len && (t->len == 0 || memcmp(t->b, b, t->len) == 0);
+}
+static bool
+d_prefix(const dtopic_t *t, const uint8_t *b, size_t len)
+{
+	return t->len <= len && (t->len == 0 || memcmp(t->b, b, t->len) == 0);
+}
+static bool
+d_same(const dbytes_t *x, const void *b, size_t len)
+{
+	return x->len == len && (len == 0 || memcmp(x->b, b, len) == 0);
 }
 
 // subject = the socket itself (default context) or an explicit context
@@ -169,20 +179,28 @@ sj_get_prefnew(const subj *j, bool *v)
 #define QMAX 192
 #define MAXMSG 2048
 #define NHIST 24
+#define NW 3
 
 typedef struct {
 	bool    open;
 	subj    j;
-	topic_t t[MAXT];
+	dtopic_t t[MAXT];
 	int     nt;
 	int     q[QMAX];
 	int     qlen;
 	int     cap;
 	bool    prefnew;
-	nng_aio *aio;
-	bool    pending;      // model: an asynchronous receive is waiting
-	int     expect_async; // model: that receive must complete with this id
-	atomic_int done;
+	// up to NW asynchronous receives may wait on one context at a time
+	nng_aio *aio[NW];
+	struct wcb {
+		void *slot;
+		int   k;
+	} wcb[NW];
+	atomic_int done[NW];
+	bool    posted[NW];
+	int     wq[NW];       // model: the waiting receives, in the order posted
+	int     nw;
+	int     expect_async; // model: exactly one of them completes with this id
 	bool    ovf_since;   // an overflow hit this queue since it was last in sync-empty
 	bool    purge_since; // an unsubscribe purged from this queue since then
 } slot_t;
@@ -192,7 +210,9 @@ enum {
 	K_EXACT, K_OVF_NEW, K_OVF_OLD, K_ASYNC, K_CMP_MSG, K_CMP_EAGAIN, K_SUBS,
 	K_DUPSUB, K_UNSUB, K_UNSUB_ABSENT, K_PURGED, K_PURGE_KEPT, K_RESIZE,
 	K_RESIZE_TRUNC, K_PREFSET, K_CTXOPEN, K_CTXCLOSE, K_CANCEL, K_OPS,
-	K_SENTINEL, K_QUIESCE_LIN, K_SOLO_ARRIVALS, K_N
+	K_SENTINEL, K_QUIESCE_LIN, K_SOLO_ARRIVALS, K_MULTIWAIT, K_WAIT_FIFO,
+	K_WAIT_NONFIFO, K_CANCEL_MIDDLE, K_BLOCKING_RECV, K_LONG_TOPIC_MATCH,
+	K_LONG_TOPIC_DECIDE, K_BIG_BODY, K_LONG_BODY, K_N
 };
 static const char *knames[K_N] = { "publishes", "match_decisions", "delivered",
 	"filtered", "topic_longer_than_body", "empty_topic_match",
@@ -203,7 +223,11 @@ static const char *knames[K_N] = { "publishes", "match_decisions", "delivered",
 	"kept_by_unsubscribe", "recvbuf_sets", "recvbuf_truncating",
 	"prefnew_sets", "ctx_opens", "ctx_closes", "async_cancels", "ops",
 	"sentinel_linearisations", "quiesce_linearisations",
-	"single_context_arrivals" };
+	"single_context_arrivals", "deliveries_with_several_waiters",
+	"waiter_first_posted_served", "waiter_other_served",
+	"cancel_of_non_first_waiter", "blocking_recv_compared",
+	"long_topic_matches", "long_topic_decisions", "bodies_over_64k",
+	"bodies_60_to_700" };
 
 typedef struct {
 	vf_rng     r;
@@ -215,8 +239,12 @@ typedef struct {
 	nng_ctx    z;
 	nng_aio   *zaio;
 	slot_t     s[NSLOT];
-	body_t     bodies[MAXMSG];
+	dbody_t     bodies[MAXMSG];
 	int        nmsg;
+	void     **al; // storage of topics and bodies of this case
+	int        nal, cal;
+	uint8_t    pat[3][8]; // the case's repeat patterns for long strings
+	int        patlen[3];
 	bool       failed;
 	char       hist[NHIST][112];
 	int        nh;
@@ -242,8 +270,22 @@ pipe_cb(nng_pipe p, nng_pipe_ev ev, void *arg)
 static void
 aio_done_cb(void *arg)
 {
-	slot_t *s = arg;
-	atomic_store(&s->done, 1);
+	struct wcb *w = arg;
+	slot_t     *s = w->slot;
+	atomic_store(&s->done[w->k], 1);
+}
+
+static uint8_t *
+d_alloc(det_t *d, size_t n)
+{
+	if (d->nal == d->cal) {
+		d->cal = d->cal ? d->cal * 2 : 256;
+		d->al  = realloc(d->al, sizeof(void *) * (size_t) d->cal);
+	}
+	uint8_t *p = malloc(n ? n : 1);
+	if (p == NULL || d->al == NULL) vf_harness_fail("out of memory");
+	d->al[d->nal++] = p;
+	return p;
 }
 
 static void
@@ -282,10 +324,10 @@ det_violation(det_t *d, const char *key, const char *fmt, ...)
 }
 
 static bool
-m_matches(const slot_t *s, const body_t *b)
+m_matches(const slot_t *s, const dbody_t *b)
 {
 	for (int i = 0; i < s->nt; i++) {
-		if (t_prefix(&s->t[i], b->b, b->len)) {
+		if (d_prefix(&s->t[i], b->b, b->len)) {
 			return true;
 		}
 	}
@@ -303,6 +345,12 @@ ntcls(int n)
 	return n == 0 ? "0" : n == 1 ? "1" : n == 2 ? "2" : "3+";
 }
 static const char *
+tlencls(uint32_t n)
+{
+	static const char *small[7] = { "0", "1", "2", "3", "4", "5", "6" };
+	return n <= 6 ? small[n] : n < 128 ? "60-127" : n < 300 ? "128-299" : "300-600";
+}
+static const char *
 cntcls(int n)
 {
 	return n == 0 ? "0" : n == 1 ? "1" : "2+";
@@ -310,29 +358,39 @@ cntcls(int n)
 
 // what kind of match (for evidence only)
 static const char *
-match_kind(det_t *d, const slot_t *s, const body_t *b, bool *matched)
+match_kind(det_t *d, const slot_t *s, const dbody_t *b, bool *matched)
 {
 	bool m = false, empty = false, exact = false, bin = false, longer = false;
+	bool lng = false, lngm = false, lngnear = false;
 	for (int i = 0; i < s->nt; i++) {
-		const topic_t *t = &s->t[i];
-		if (t_prefix(t, b->b, b->len)) {
+		const dtopic_t *t = &s->t[i];
+		if (t->len >= 60) lng = true;
+		if (d_prefix(t, b->b, b->len)) {
 			m = true;
 			if (t->len == 0) empty = true;
 			if (t->len == b->len) exact = true;
-			for (int k = 0; k < t->len; k++) {
+			if (t->len >= 60) lngm = true;
+			for (uint32_t k = 0; k < t->len; k++) {
 				if (t->b[k] == 0x00 || t->b[k] == 0xff) bin = true;
 			}
+		} else if (t->len >= 60 && b->len >= 60 && memcmp(t->b, b->b, 59) == 0) {
+			lngnear = true; // long common prefix, yet no match
 		} else if (t->len > b->len &&
 		    (b->len == 0 || memcmp(t->b, b->b, b->len) == 0)) {
 			longer = true; // body is a proper prefix of the topic
 		}
 	}
 	*matched = m;
+	if (lng) d->k[K_LONG_TOPIC_DECIDE]++;
 	if (m) {
 		if (empty) d->k[K_EMPTYTOPIC]++;
 		if (exact) d->k[K_EXACT]++;
 		if (bin) d->k[K_BINTOPIC]++;
-		return empty ? "empty" : exact ? "exact" : bin ? "binary" : "prefix";
+		if (lngm) d->k[K_LONG_TOPIC_MATCH]++;
+		return empty ? "empty" : lngm ? (exact ? "long-exact" : "long-prefix") : exact ? "exact" : bin ? "binary" : "prefix";
+	}
+	if (lngnear) {
+		return "long-near-miss";
 	}
 	if (longer) {
 		d->k[K_NEARMISS]++;
@@ -351,12 +409,10 @@ det_mismatch(det_t *d, int si, const char *op, int rv, nng_msg *got, int want)
 	                   : "iff";
 	const char *shape;
 	char        key[160];
-	body_t      g;
-	memset(&g, 0, sizeof(g));
+	dbody_t      g = { 0, NULL };
 	if (got != NULL) {
-		size_t n = nng_msg_len(got);
-		g.len    = (uint8_t) (n > BLEN ? BLEN : n);
-		memcpy(g.b, nng_msg_body(got), g.len);
+		g.len = (uint32_t) nng_msg_len(got);
+		g.b   = nng_msg_body(got);
 	}
 	if (rv != 0 && rv != NNG_EAGAIN) {
 		snprintf(key, sizeof(key), "C05/recv-error/%s", ename(rv));
@@ -371,7 +427,7 @@ det_mismatch(det_t *d, int si, const char *op, int rv, nng_msg *got, int want)
 	} else {
 		bool later = false;
 		for (int i = 1; i < s->qlen; i++) {
-			const body_t *b = &d->bodies[s->q[i]];
+			const dbody_t *b = &d->bodies[s->q[i]];
 			if (b->len == nng_msg_len(got) &&
 			    memcmp(b->b, nng_msg_body(got), b->len) == 0) {
 				later = true;
@@ -395,7 +451,7 @@ det_compare(det_t *d, int si, const char *op, int rv, nng_msg *msg, int want)
 {
 	slot_t *s = &d->s[si];
 	if (rv == 0 && want >= 0) {
-		const body_t *b = &d->bodies[want];
+		const dbody_t *b = &d->bodies[want];
 		if (nng_msg_len(msg) == b->len &&
 		    memcmp(nng_msg_body(msg), b->b, b->len) == 0) {
 			d->k[K_CMP_MSG]++;
@@ -424,7 +480,29 @@ q_pop(slot_t *s)
 	s->qlen--;
 }
 
-// asynchronous receives whose completion the model predicts
+static void
+wq_remove(slot_t *s, int p)
+{
+	memmove(&s->wq[p], &s->wq[p + 1], sizeof(int) * (size_t) (s->nw - p - 1));
+	s->nw--;
+}
+
+// collect waiter at queue position p (its aio has completed or will now)
+static int
+wq_collect(slot_t *s, int p, nng_msg **mp)
+{
+	int k = s->wq[p];
+	nng_aio_wait(s->aio[k]);
+	int rv = (int) nng_aio_result(s->aio[k]);
+	*mp    = rv == 0 ? nng_aio_get_msg(s->aio[k]) : NULL;
+	s->posted[k] = false;
+	wq_remove(s, p);
+	return rv;
+}
+
+// asynchronous receives whose completion the model predicts.  With several
+// receives waiting on one context the property demands that exactly one of
+// them gets the message (never duplicated); which one is not stated.
 static void
 det_settle_async(det_t *d)
 {
@@ -432,20 +510,44 @@ det_settle_async(det_t *d)
 		slot_t *s = &d->s[i];
 		if (!s->open) continue;
 		if (s->expect_async >= 0) {
-			nng_aio_wait(s->aio);
-			int      rv = (int) nng_aio_result(s->aio);
-			nng_msg *m  = rv == 0 ? nng_aio_get_msg(s->aio) : NULL;
-			int      w  = s->expect_async;
+			int      w = s->expect_async, p = -1, nwb = s->nw;
+			uint64_t end = vf_now_ns() + 10000000000ULL;
 			s->expect_async = -1;
+			while (p < 0) {
+				for (int q = 0; q < s->nw && p < 0; q++) {
+					if (atomic_load(&s->done[s->wq[q]])) p = q;
+				}
+				if (p < 0) {
+					if (vf_now_ns() > end) break;
+					vf_usleep(20);
+				}
+			}
+			if (p < 0) {
+				// none of the waiting receives completed within 10 s
+				det_compare(d, i, "async-recv", NNG_EAGAIN, NULL, w);
+				continue;
+			}
+			nng_msg *m;
+			int      rv = wq_collect(s, p, &m);
 			if (rv == NNG_ETIMEDOUT) rv = NNG_EAGAIN;
 			det_compare(d, i, "async-recv", rv, m, w);
 			d->k[K_ASYNC]++;
-		} else if (s->pending && atomic_load(&s->done)) {
-			nng_aio_wait(s->aio);
-			int rv     = (int) nng_aio_result(s->aio);
-			s->pending = false;
+			if (nwb > 1) {
+				d->k[K_MULTIWAIT]++;
+				d->k[p == 0 ? K_WAIT_FIFO : K_WAIT_NONFIFO]++;
+				vf_class("async-delivery/waiters-%d/served-%s", nwb, p == 0 ? "first-posted" : "other");
+			}
+		}
+		// any other completion is one the model did not predict
+		for (int q = 0; q < s->nw && !d->failed;) {
+			if (!atomic_load(&s->done[s->wq[q]])) {
+				q++;
+				continue;
+			}
+			nng_msg *m;
+			int      rv = wq_collect(s, q, &m);
 			if (rv == 0) {
-				det_compare(d, i, "async-recv", 0, nng_aio_get_msg(s->aio), -1);
+				det_compare(d, i, "async-recv-unpredicted", 0, m, -1);
 			}
 			// a time-out of the 120 s aio is harness trouble, not judged
 		}
@@ -455,7 +557,7 @@ det_settle_async(det_t *d)
 static void
 m_arrive(det_t *d, int id)
 {
-	const body_t *b = &d->bodies[id];
+	const dbody_t *b = &d->bodies[id];
 	int           nopen = 0;
 	for (int i = 0; i < NSLOT; i++) {
 		nopen += d->s[i].open;
@@ -471,8 +573,7 @@ m_arrive(det_t *d, int id)
 		if (!m) {
 			d->k[K_FILTER]++;
 			out = "filtered";
-		} else if (s->pending) {
-			s->pending      = false;
+		} else if (s->nw > 0) {
 			s->expect_async = id;
 			d->k[K_DELIVER]++;
 			out = "to-waiting-receiver";
@@ -544,7 +645,7 @@ raw_publish(nng_socket p, const void *b, size_t n, int flags)
 }
 
 static bool
-det_publish(det_t *d, int pi, const body_t *b)
+det_publish(det_t *d, int pi, const dbody_t *b)
 {
 	int id = d->nmsg++;
 	int flags = vf_chance(&d->r, 1, 4) ? NNG_FLAG_NONBLOCK : 0;
@@ -560,6 +661,11 @@ det_publish(det_t *d, int pi, const body_t *b)
 		return false;
 	}
 	d->k[K_PUB]++;
+	if (b->len > 65536) {
+		d->k[K_BIG_BODY]++;
+	} else if (b->len >= 60) {
+		d->k[K_LONG_BODY]++;
+	}
 	if (d->sentinel) {
 		subj     zj = { .is_sock = false, .c = d->z };
 		nng_msg *m  = NULL;
@@ -606,14 +712,26 @@ det_slot_init_model(det_t *d, int si)
 	s->prefnew = pn;
 	s->nt = 0;
 	s->qlen = 0;
-	s->pending = false;
+	s->nw = 0;
 	s->expect_async = -1;
 	s->ovf_since = s->purge_since = false;
-	atomic_store(&s->done, 0);
-	if (nng_aio_alloc(&s->aio, aio_done_cb, s) != 0) {
-		vf_harness_fail("aio alloc");
+	for (int k = 0; k < NW; k++) {
+		s->wcb[k].slot = s;
+		s->wcb[k].k    = k;
+		s->posted[k]   = false;
+		atomic_store(&s->done[k], 0);
+		if (nng_aio_alloc(&s->aio[k], aio_done_cb, &s->wcb[k]) != 0) {
+			vf_harness_fail("aio alloc");
+		}
+		nng_aio_set_timeout(s->aio[k], 120000);
 	}
-	nng_aio_set_timeout(s->aio, 120000);
+	// blocking receives (flags 0) are only issued when the model holds a
+	// message; the time-out turns a lost one into a result
+	if (s->j.is_sock) {
+		nng_socket_set_ms(s->j.s, NNG_OPT_RECVTIMEO, 10000);
+	} else {
+		nng_ctx_set_ms(s->j.c, NNG_OPT_RECVTIMEO, 10000);
+	}
 	s->open = true;
 }
 
@@ -631,25 +749,43 @@ det_ctx_open(det_t *d, int si)
 	hist(d, "open ctx%d cap%d pn%d", si, s->cap, s->prefnew);
 }
 
+// cancel the waiting receive at queue position p
+static void
+det_cancel_one(det_t *d, int si, int p, const char *why)
+{
+	slot_t  *s = &d->s[si];
+	int      k = s->wq[p];
+	nng_msg *m;
+	if (!atomic_load(&s->done[k])) {
+		nng_aio_cancel(s->aio[k]);
+	}
+	int rv = wq_collect(s, p, &m);
+	if (rv == 0 && !d->failed) {
+		det_compare(d, si, why, 0, m, -1);
+	} else if (rv == 0) {
+		nng_msg_free(m);
+	}
+}
+
+// cancel (or, for a context, close under) all waiting receives
 static void
 det_cancel_pending(det_t *d, int si, bool close_ctx)
 {
 	slot_t *s = &d->s[si];
 	if (close_ctx) {
 		nng_ctx_close(s->j.c);
-	} else if (s->pending && !atomic_load(&s->done)) {
-		nng_aio_cancel(s->aio);
 	}
-	if (s->pending) {
-		nng_aio_wait(s->aio);
-		int rv     = (int) nng_aio_result(s->aio);
-		s->pending = false;
-		if (rv == 0 && !d->failed) {
-			det_compare(d, si, close_ctx ? "close-with-waiting-receive" : "cancelled-receive",
-			    0, nng_aio_get_msg(s->aio), -1);
-		} else if (rv == 0) {
-			nng_msg_free(nng_aio_get_msg(s->aio));
-		}
+	while (s->nw > 0) {
+		det_cancel_one(d, si, 0, close_ctx ? "close-with-waiting-receive" : "cancelled-receive");
+	}
+	s->expect_async = -1;
+}
+
+static void
+det_free_aios(slot_t *s)
+{
+	for (int k = 0; k < NW; k++) {
+		nng_aio_free(s->aio[k]);
 	}
 }
 
@@ -668,7 +804,7 @@ det_drain(det_t *d, int si, const char *why)
 }
 
 static void
-det_subscribe(det_t *d, int si, const topic_t *t)
+det_subscribe(det_t *d, int si, const dtopic_t *t)
 {
 	slot_t *s = &d->s[si];
 	int     rv;
@@ -691,12 +827,12 @@ det_subscribe(det_t *d, int si, const topic_t *t)
 		d->k[K_DUPSUB]++;
 	}
 	d->k[K_SUBS]++;
-	vf_class("subscribe/len-%d/%s/topics-%s/fill-%s", t->len, dup ? "duplicate" : "new",
+	vf_class("subscribe/len-%s/%s/topics-%s/fill-%s", tlencls(t->len), dup ? "duplicate" : "new",
 	    ntcls(s->nt), fillcls(s));
 }
 
 static void
-det_unsubscribe(det_t *d, int si, const topic_t *t)
+det_unsubscribe(det_t *d, int si, const dtopic_t *t)
 {
 	slot_t *s  = &d->s[si];
 	int     at = -1, rv;
@@ -718,7 +854,7 @@ det_unsubscribe(det_t *d, int si, const topic_t *t)
 		    nng_strerror(rv));
 		return;
 	}
-	memmove(&s->t[at], &s->t[at + 1], sizeof(topic_t) * (size_t) (s->nt - at - 1));
+	memmove(&s->t[at], &s->t[at + 1], sizeof(dtopic_t) * (size_t) (s->nt - at - 1));
 	s->nt--;
 	int kept = 0, purged = 0;
 	for (int i = 0; i < s->qlen; i++) {
@@ -733,8 +869,8 @@ det_unsubscribe(det_t *d, int si, const topic_t *t)
 	d->k[K_UNSUB]++;
 	d->k[K_PURGED] += purged;
 	d->k[K_PURGE_KEPT] += kept;
-	vf_class("unsubscribe/len-%d/topics-left-%s/purged-%s/kept-%s%s", t->len,
-	    ntcls(s->nt), cntcls(purged), cntcls(kept), s->pending ? "/receiver-waiting" : "");
+	vf_class("unsubscribe/len-%s/topics-left-%s/purged-%s/kept-%s%s", tlencls(t->len),
+	    ntcls(s->nt), cntcls(purged), cntcls(kept), s->nw ? "/receiver-waiting" : "");
 }
 
 static void
@@ -770,7 +906,7 @@ det_set_recvbuf(det_t *d, int si, int n)
 			}
 			bool found = false;
 			while (pos < oldlen && !found) {
-				const body_t *b = &d->bodies[s->q[pos++]];
+				const dbody_t *b = &d->bodies[s->q[pos++]];
 				found = b->len == nng_msg_len(m) &&
 				    memcmp(b->b, nng_msg_body(m), b->len) == 0;
 			}
@@ -791,13 +927,58 @@ det_set_recvbuf(det_t *d, int si, int n)
 }
 
 static void
-g_body(det_t *d, body_t *b)
+fill_pattern(det_t *d, uint8_t *out, size_t n, int which)
+{
+	for (size_t i = 0; i < n; i++) {
+		out[i] = d->pat[which][i % (size_t) d->patlen[which]];
+	}
+}
+
+// lengths around allocation / ring boundaries, else uniform
+static uint32_t
+g_longlen(vf_rng *r, uint32_t lo, uint32_t hi)
+{
+	static const uint16_t edge[14] = { 60, 63, 64, 65, 127, 128, 129, 255, 256,
+		257, 511, 512, 513, 600 };
+	if (vf_chance(r, 1, 3)) {
+		uint32_t e = edge[vf_below(r, 14)];
+		if (e >= lo && e <= hi) return e;
+	}
+	return vf_range(r, lo, hi);
+}
+
+static void
+g_topic(det_t *d, dtopic_t *t)
+{
+	vf_rng *r = &d->r;
+	static const uint8_t lens[20] = { 0, 0, 1, 1, 1, 1, 1, 1, 2, 2, 2, 2, 2, 3,
+		3, 3, 4, 4, 5, 6 };
+	if (vf_chance(r, 1, 20)) {
+		// long topic: one of the case's repeat patterns, so that long
+		// topics and long bodies share long prefixes
+		t->len = g_longlen(r, 60, 600);
+		t->b   = d_alloc(d, t->len);
+		fill_pattern(d, t->b, t->len, (int) vf_below(r, 3));
+		if (vf_chance(r, 1, 4)) {
+			t->b[t->len - 1] ^= 0x01; // differs in the very last byte only
+		}
+		return;
+	}
+	t->len = lens[vf_below(r, 20)];
+	t->b   = d_alloc(d, TLEN);
+	for (uint32_t i = 0; i < t->len; i++) {
+		t->b[i] = g_sym(r);
+	}
+}
+
+static void
+g_body(det_t *d, dbody_t *b)
 {
 	vf_rng *r = &d->r;
 	static const uint8_t lens[20] = { 0, 1, 1, 1, 2, 2, 2, 2, 2, 3, 3, 3, 3, 3,
 		4, 4, 4, 5, 5, 6 };
 	uint32_t how = vf_below(r, 10);
-	const topic_t *base = NULL;
+	const dtopic_t *base = NULL;
 	if (how >= 4) {
 		// derive from an existing topic so that matches are dense
 		int cand[NSLOT], nc = 0;
@@ -810,18 +991,28 @@ g_body(det_t *d, body_t *b)
 		}
 	}
 	b->len = 0;
-	if (base == NULL) {
+	if (base == NULL && vf_chance(r, 1, 30)) {
+		// long or very large body made of a repeat pattern (a tcp frame
+		// of more than one segment when > 64 KB)
+		uint32_t n = vf_chance(r, 1, 5) ? vf_range(r, 66000, 200000) : g_longlen(r, 60, 700);
+		b->b       = d_alloc(d, n + 4);
+		fill_pattern(d, b->b, n, (int) vf_below(r, 3));
+		b->len = n;
+	} else if (base == NULL) {
 		int n = lens[vf_below(r, 20)];
+		b->b  = d_alloc(d, 16);
 		for (int i = 0; i < n; i++) b->b[b->len++] = g_sym(r);
 	} else {
+		b->b = d_alloc(d, base->len + 8);
 		memcpy(b->b, base->b, base->len);
 		b->len = base->len;
 		if (how >= 8 && b->len > 0) {
 			if (vf_chance(r, 1, 2)) {
 				b->len--; // topic longer than body
 			} else {
-				int at   = (int) vf_below(r, b->len);
-				b->b[at] = (uint8_t) (b->b[at] == 'a' ? 'b' : 'a');
+				// one byte differs (for long topics biased to the end)
+				uint32_t at = vf_chance(r, 1, 2) ? b->len - 1 : vf_below(r, b->len);
+				b->b[at]    = (uint8_t) (b->b[at] == 'a' ? 'b' : 'a');
 			}
 		} else {
 			int ext = (int) vf_below(r, 4);
@@ -924,6 +1115,10 @@ det_case(long idx)
 	vf_case_begin(idx, "det tran=%s sentinel=%d pubs=%d steps=%d maxctx=%d cap0=%d prefnew0=%d",
 	    vf_tran_names[d->tran], d->sentinel, d->npub, nsteps, maxctx, cap0, pn0);
 
+	for (int i = 0; i < 3; i++) {
+		d->patlen[i] = (int) vf_range(r, 1, 7);
+		for (int k = 0; k < d->patlen[i]; k++) d->pat[i][k] = g_sym(r);
+	}
 	if ((rv = nng_sub0_open(&d->sub)) != 0) vf_harness_fail("sub open");
 	for (int i = 0; i < d->npub; i++) {
 		if (nng_pub0_open(&d->pub[i]) != 0) vf_harness_fail("pub open");
@@ -973,7 +1168,7 @@ det_case(long idx)
 		uint32_t op = vf_below(r, 100);
 		d->k[K_OPS]++;
 		if (op < 34) {
-			body_t b;
+			dbody_t b;
 			g_body(d, &b);
 			if (d->nmsg >= MAXMSG) break;
 			det_publish(d, (int) vf_below(r, (uint32_t) d->npub), &b);
@@ -981,41 +1176,64 @@ det_case(long idx)
 			nng_msg *m    = NULL;
 			int      want = s->qlen ? s->q[0] : -1;
 			hist(d, "recv s%d want %s", si, want < 0 ? "EAGAIN" : hx(d->bodies[want].b, d->bodies[want].len));
-			vf_class("recv/%s/fill-%s/prefnew-%d%s", want < 0 ? "eagain" : "message", fillcls(s), s->prefnew,
-			    s->pending ? "/receiver-waiting" : "");
-			rv = sj_recv_nb(&s->j, &m);
-			det_compare(d, si, "recv", rv, m, want);
+			bool blocking = want >= 0 && vf_chance(r, 1, 4);
+			vf_class("recv/%s/fill-%s/prefnew-%d%s%s", want < 0 ? "eagain" : "message", fillcls(s), s->prefnew,
+			    s->nw ? "/receiver-waiting" : "", blocking ? "/blocking" : "");
+			if (blocking) {
+				// flags 0: must return the queued message at once
+				rv = s->j.is_sock ? nng_recvmsg(s->j.s, &m, 0) : nng_ctx_recvmsg(s->j.c, &m, 0);
+				if (rv == NNG_ETIMEDOUT) rv = NNG_EAGAIN;
+				if (rv == 0) d->k[K_BLOCKING_RECV]++;
+			} else {
+				rv = sj_recv_nb(&s->j, &m);
+			}
+			det_compare(d, si, blocking ? "blocking-recv" : "recv", rv, m, want);
 			if (want >= 0) q_pop(s);
 		} else if (op < 64) {
-			topic_t t;
-			g_topic(r, &t);
+			dtopic_t t;
+			g_topic(d, &t);
 			det_subscribe(d, si, &t);
 		} else if (op < 74) {
-			topic_t t;
+			dtopic_t t;
 			if (s->nt > 0 && vf_chance(r, 4, 5)) {
 				t = s->t[vf_below(r, (uint32_t) s->nt)];
 			} else {
-				g_topic(r, &t);
+				g_topic(d, &t);
 			}
 			det_unsubscribe(d, si, &t);
-		} else if (op < 79) {
+		} else if (op < 80) {
 			// asynchronous receive
-			if (s->pending || s->expect_async >= 0) continue;
-			atomic_store(&s->done, 0);
-			hist(d, "arecv s%d qlen %d", si, s->qlen);
-			sj_recv_aio(&s->j, s->aio);
-			if (s->qlen > 0) {
-				s->expect_async = s->q[0];
-				q_pop(s);
-				det_settle_async(d);
-			} else {
-				s->pending = true;
+			int k = -1;
+			for (int x = 0; x < NW; x++) {
+				if (!s->posted[x]) k = x;
 			}
-			vf_class("async-recv/%s", s->pending ? "waits" : "immediate");
-		} else if (op < 81) {
-			if (!s->pending) continue;
-			hist(d, "cancel s%d", si);
-			det_cancel_pending(d, si, false);
+			if (k < 0 || s->expect_async >= 0) continue;
+			atomic_store(&s->done[k], 0);
+			s->posted[k] = true;
+			hist(d, "arecv s%d qlen %d waiters %d", si, s->qlen, s->nw);
+			sj_recv_aio(&s->j, s->aio[k]);
+			if (s->qlen > 0) {
+				// completes at once with the head of the queue
+				nng_aio_wait(s->aio[k]);
+				rv           = (int) nng_aio_result(s->aio[k]);
+				nng_msg *m   = rv == 0 ? nng_aio_get_msg(s->aio[k]) : NULL;
+				s->posted[k] = false;
+				if (rv == NNG_ETIMEDOUT) rv = NNG_EAGAIN;
+				det_compare(d, si, "async-recv-immediate", rv, m, s->q[0]);
+				q_pop(s);
+				d->k[K_ASYNC]++;
+				vf_class("async-recv/immediate");
+			} else {
+				s->wq[s->nw++] = k;
+				vf_class("async-recv/waits-as-number-%d", s->nw);
+			}
+		} else if (op < 82) {
+			if (s->nw == 0) continue;
+			int pos = (int) vf_below(r, (uint32_t) s->nw);
+			hist(d, "cancel s%d waiter %d of %d", si, pos, s->nw);
+			vf_class("cancel-waiter/%d-of-%d", pos, s->nw);
+			if (pos > 0) d->k[K_CANCEL_MIDDLE]++;
+			det_cancel_one(d, si, pos, "cancelled-receive");
 			d->k[K_CANCEL]++;
 		} else if (op < 86) {
 			det_set_recvbuf(d, si, caps[vf_below(r, 16)]);
@@ -1037,10 +1255,10 @@ det_case(long idx)
 			}
 		} else if (op < 97) {
 			if (si == 0) continue;
-			hist(d, "close ctx%d (qlen %d%s)", si, s->qlen, s->pending ? ", receiver waiting" : "");
-			vf_class("ctx-close/fill-%s%s", fillcls(s), s->pending ? "/receiver-waiting" : "");
+			hist(d, "close ctx%d (qlen %d, %d receivers waiting)", si, s->qlen, s->nw);
+			vf_class("ctx-close/fill-%s/waiters-%d", fillcls(s), s->nw);
 			det_cancel_pending(d, si, true);
-			nng_aio_free(s->aio);
+			det_free_aios(s);
 			s->open = false;
 			d->k[K_CTXCLOSE]++;
 		} else {
@@ -1056,14 +1274,8 @@ det_case(long idx)
 			hist(d, "final drain s%d (qlen %d)", i, s->qlen);
 			det_drain(d, i, "final-drain");
 		}
-		if (s->expect_async >= 0) {
-			// only after a violation: completed but never collected
-			nng_aio_wait(s->aio);
-			if (nng_aio_result(s->aio) == 0) nng_msg_free(nng_aio_get_msg(s->aio));
-			s->expect_async = -1;
-		}
 		det_cancel_pending(d, i, !s->j.is_sock);
-		nng_aio_free(s->aio);
+		det_free_aios(s);
 		s->open = false;
 	}
 	atomic_store(&g_closing, 1);
@@ -1085,6 +1297,8 @@ det_case(long idx)
 		    d->k[K_CMP_MSG] + d->k[K_CMP_EAGAIN], d->k[K_OVF_NEW], d->k[K_OVF_OLD],
 		    d->k[K_PURGED], d->nmsg ? hx(d->bodies[d->nmsg - 1].b, d->bodies[d->nmsg - 1].len) : "");
 	}
+	for (int i = 0; i < d->nal; i++) free(d->al[i]);
+	free(d->al);
 	free(d);
 }
 
